@@ -620,6 +620,75 @@ void h_iintTimes_wf(void)
 	CHECK("iintTimes: no digit stored beyond the capacity", SLACK_OK(r) && SLACK_OK(a) && SLACK_OK(b));
 	VREACH();
 }
+/* ---- products against the SCHOOLBOOK expansion -----------------------------------------------------
+ * spec: a * b = sum_{i,j} a_i * b_j * B^(i+j), every partial product a 64-bit product of two zero-extended digits --
+ * exactly the terms the code forms in TimesStep -- accumulated in 128-bit arithmetic (no wrap for the sizes below).
+ * That this sum is the mathematical product is distributivity (pencil and paper, listed as an assumption); what the
+ * solver decides is that carries, digit positions, operand swap, zero skipping and the final length are right. */
+#define PP(x, i, y, j)  (((bs_u) ((BIntD) (x)->placev[i] * (BIntD) (y)->placev[j])) << (32 * ((i) + (j))))
+#define DG(x, i)        ((Length) (i) < (x)->placec)
+static bs_u sb_product(BInt a, BInt b)		/* a, b <= 2 digits */
+{
+	bs_u m = 0;
+	if (DG(a, 0) && DG(b, 0)) m += PP(a, 0, b, 0);
+	if (DG(a, 1) && DG(b, 0)) m += PP(a, 1, b, 0);
+	if (DG(a, 0) && DG(b, 1)) m += PP(a, 0, b, 1);
+	if (DG(a, 1) && DG(b, 1)) m += PP(a, 1, b, 1);
+	return m;
+}
+static bs_u sb_product_s(BInt a, BIntS d)	/* a <= 3 digits */
+{
+	bs_u m = 0; int i;
+	for (i = 0; i < 3; i++) if (DG(a, i)) m += ((bs_u) ((BIntD) a->placev[i] * (BIntD) d)) << (32 * i);
+	return m;
+}
+/* -DSB_D=<digit>: the single-digit multiplier is a constant of the job; -DSB_B0/-DSB_B1: so are the digits of iintTimes'
+ * second operand (a symbolic 32x32-bit multiplier is out of reach of SAT and z3 even against this spec: 900 s) */
+#ifdef SB_D
+#define SB_D_DECL BIntS d = (BIntS) (SB_D)
+#else
+#define SB_D_DECL INPUT(BIntS, d)
+#endif
+void h_iintTimes_schoolbook(void)
+{
+	INPUT(BIntS, sent); g_sent = sent;
+	IN_STORED(a); IN_STORED(b); IN_STORED(r);
+#ifdef SB_B0
+	if (b->placea > 0) b->placev[0] = (BIntS) (SB_B0);
+	if (b->placea > 1) b->placev[1] = (BIntS) (SB_B1);
+#endif
+	ASSUME(a->placec <= a->placea && b->placec <= b->placea && a->placec <= 2 && b->placec <= 2);
+	ASSUME(BS_WF_ST(a) && BS_WF_ST(b) && !a->isNeg && !b->isNeg);
+	ASSUME(r->placea == a->placec + b->placec && r->placec == r->placea);      /* bintAllocPlaces(ac + bc), as bintTimes does */
+	bs_u want = sb_product(a, b);
+	iintTimes(r, a, b);
+#ifndef CANARY_iintTimes
+	CHECK("iintTimes: magnitude == schoolbook sum of the digit products", BS_MAG(r) == want);
+#else	/* canary: the top carry digit is lost */
+	CHECK("iintTimes canary", BS_MAG(r) == (want & ((((bs_u) 1) << 64) - 1)));
+#endif
+	CHECK("iintTimes: no leading zero digit", r->placec <= r->placea && (r->placec == 0 || BS_TOP_NZ(r)));
+	CHECK("iintTimes: no digit stored beyond the capacity", SLACK_OK(r) && SLACK_OK(a) && SLACK_OK(b));
+	VREACH();
+}
+#define BODY_iintTimesS(PLUS) \
+{ \
+	INPUT(BIntS, sent); g_sent = sent; \
+	IN_STORED(a); IN_STORED(r0); INPUT(int, alias); SB_D_DECL; INPUT(BIntS, c); \
+	BInt r = alias ? a : r0; \
+	ASSUME(a->placec <= a->placea && a->placec <= 3 && BS_WF_ST(a) && !a->isNeg && a->placec >= 1 && BS_TOP_NZ(a)); \
+	ASSUME(r->placea >= a->placea && r->placea >= a->placec + 1 && r->placec <= r->placea);	/* callers leave room for the carry digit */ \
+	ASSUME(d != 0);		/* d == 0 goes through xintCopyInI, which may reallocate (the unit's own '!!!' remark) */ \
+	bs_u want = sb_product_s(a, d) + ((PLUS) ? (bs_u) c : 0); \
+	if (PLUS) iintTimesPlusS(r, a, d, c); else iintTimesS(r, a, d); \
+	CHECK("iintTimes[Plus]S: magnitude == schoolbook sum of the digit products (+ c)", BS_MAG(r) == want); \
+	CHECK("iintTimes[Plus]S: no leading zero digit", r->placec <= r->placea && r->placec >= 1 && BS_TOP_NZ(r)); \
+	CHECK("iintTimes[Plus]S: no digit stored beyond the capacity", SLACK_OK(r) && SLACK_OK(a)); \
+	VREACH(); \
+}
+void h_iintTimesS_schoolbook(void)     BODY_iintTimesS(0)
+void h_iintTimesPlusS_schoolbook(void) BODY_iintTimesS(1)
+
 void h_iintDivide_wf(void)
 {
 	INPUT(BIntS, sent); g_sent = sent;
